@@ -20,10 +20,17 @@ Lemma P_pos : 0 < P. Proof. reflexivity. Qed.
 Lemma canonb_spec a : canonb a = true <-> canon a.
 Proof. unfold canonb, canon. lia. Qed.
 
+(* masks written with `&` instead of a cast or a shift (a rewrite of the source may use either): as `mod` *)
+Lemma land_mask32 a : Z.land a 4294967295 = a mod 4294967296.
+Proof. change 4294967295 with (Z.ones 32). rewrite Z.land_ones by lia. reflexivity. Qed.
+Lemma land_mask32' a : Z.land 4294967295 a = a mod 4294967296.
+Proof. rewrite Z.land_comm. apply land_mask32. Qed.
+
 Ltac word_unfold :=
   unfold ovf_add, ovf_sub, wsub, wadd, wmul, wshl, wshr, wnot, ucast, scast, wrap, b2z,
     add_ok, sub_ok, mul_ok, shift_ok, sadd_ok, ssub_ok in *;
   cbv zeta;
+  rewrite ?land_mask32, ?land_mask32' in *;
   change (2 ^ 64) with 18446744073709551616 in *;
   change (2 ^ 63) with 9223372036854775808 in *;
   change (2 ^ 32) with 4294967296 in *;
